@@ -1,14 +1,16 @@
-(* C02 / C12: SPECIFICATION of the VALUE of a text that consists of string literals and single spaces (what f_string.Str
-   hands to eval() and writes into the replacement field): implicit concatenation of the strings the reference decoder
-   (Model/StrDecode.v) reads from each literal. *)
+(* C02 / C12: SPECIFICATION of the VALUE of a text that consists of string (bytes) literals and single spaces (what
+   f_string.Str / f_string.Bytes hand to eval() and write into the replacement field): implicit concatenation of the values
+   the reference decoder (Model/StrDecode.v) reads from each literal.  `pre` is [] for str, "b" for bytes; D the decoder. *)
 From PM Require Import Model.Base Model.MiniString Model.StrDecode Model.FStr.
 Open Scope bool_scope.
 Open Scope N_scope.
 
-Inductive lits_value : text -> text -> Prop :=
-| LV_nil : lits_value [] []
-| LV_space r v : lits_value r v -> lits_value (32 :: r) v
-| LV_short q r d rest v : is_q q -> starts2 q r = false -> dec false q DNorm r = Some (d, rest) -> lits_value rest v ->
-    lits_value (q :: r) (d ++ v)
-| LV_long q r d rest v : is_q q -> dec true q DNorm r = Some (d, rest) -> lits_value rest v ->
-    lits_value (q :: q :: q :: r) (d ++ v).
+Inductive lits_value_gen (pre : text) (D : bool -> N -> dstate -> text -> option (text * text)) : text -> text -> Prop :=
+| LV_nil : lits_value_gen pre D [] []
+| LV_space r v : lits_value_gen pre D r v -> lits_value_gen pre D (32 :: r) v
+| LV_short q r d rest v : is_q q -> starts2 q r = false -> D false q DNorm r = Some (d, rest) -> lits_value_gen pre D rest v ->
+    lits_value_gen pre D (pre ++ q :: r) (d ++ v)
+| LV_long q r d rest v : is_q q -> D true q DNorm r = Some (d, rest) -> lits_value_gen pre D rest v ->
+    lits_value_gen pre D (pre ++ q :: q :: q :: r) (d ++ v).
+Definition lits_value := lits_value_gen [] dec.
+Definition lits_value_bytes := lits_value_gen [98] decb.
